@@ -204,6 +204,94 @@ def c15(tier):
                     unwind=10, unwindset=[("X_strlen", 64)], weight_gb=4)]
     return obs, dict(assumptions=CXX_ASSUME)
 
+# ---- C07: dfs fails cleanly (parsing kernels on arbitrary input; CBMC built-in checks + no escaped exception)
+def ob_hxc_header(pid):
+    return X.cxx_ob(pid, "hxc_header", W_HXC, "h_hxc_header", "read_and_verify_header on a file of arbitrary size and contents: never indexes past the bytes "
+                    "actually read, never throws, accepts only complete headers", "file size 16-bit symbolic, every byte read symbolic",
+                    ["dfs/img_hxcmfm.cc:read_and_verify_header", "le_word", "le_quad"], unwind=30, unwindset=[("X_strlen", 64), ("hexdump", 12), ("vf_ostream3num", 24)], weight_gb=4)
+def ob_hxc_track_list(pid, n=4):
+    return X.cxx_ob(pid, "hxc_track_list.N%d" % n, W_HXC, "h_hxc_track_list", "get_track_metadata on an arbitrary file: terminates at the end of the file, "
+                    "never indexes past a short read, either yields a complete list or throws a std::exception",
+                    "file holding <= %d track-list entries, header tracks 1..65535, sides 1..2, all bytes symbolic" % n,
+                    ["dfs/img_hxcmfm.cc:HxcMfmFile::get_track_metadata", "std::map insert (rb-tree model)"], unwind=n + 3,
+                    unwindset=[("X_strlen", 64), ("vf_ostream3num", 24), ("SymFile4read", 26)], defines=("NDEBUG", "HXC_LIST_MAX=%d" % n), weight_gb=6)
+def ob_fragment_valid(pid, entries):
+    return X.cxx_ob(pid, "fragment_valid.E%d" % entries, W_ID, "h_fragment_valid", "CatalogFragment constructor + valid() on arbitrary catalogue sectors, three formats: "
+                    "no exception, no out-of-bounds access", "first %d bytes of both sectors symbolic" % (8 + 8 * entries),
+                    ["dfs/dfs_catalog.cc:CatalogFragment::valid", "get_safe_name", "CatalogEntry::last_sector"], unwind=14,
+                    unwindset=[("h_fragment_valid.0", 258), ("h_fragment_valid.1", 258), ("CatalogFragmentC2", max(entries + 2, 10)), ("realloc_insert", entries + 2),
+                               ("CatalogFragment5valid", entries + 2), ("X_strlen", 64), ("X_mem", 16), ("vf_ostream3num", 24)],
+                    defines=("NDEBUG", "FRAG_ENTRIES=%d" % entries), weight_gb=8, noop_re=[r"get_safe_name"])
+def ob_opus_catalogue(pid):
+    return X.cxx_ob(pid, "opus_catalogue", W_ID, "h_opus_catalogue", "OpusDiscCatalogue on an arbitrary sector 16: either BadFileSystem or volumes sorted, "
+                    "contiguous and inside the recorded total", "24 symbolic bytes of sector 16 (8 volume slots)",
+                    ["dfs/opus_cat.cc:OpusDiscCatalogue::OpusDiscCatalogue", "VolumeLocation", "std::sort (<= 8 elements)"], unwind=12,
+                    unwindset=[("h_opus_catalogue.0", 258), ("X_strlen", 64), ("vf_ostream3num", 24)], weight_gb=8, noop_re=EXC_CTORS)
+
+@prop("C07")
+def c07(tier):
+    obs = [ob_hxc_header("C07"), ob_hxc_track_list("C07", 3 if tier == "quick" else 5), ob_fragment_valid("C07", 2 if tier == "quick" else 4),
+           ob_opus_catalogue("C07"), ob_fileview("C07", 0), ob_fileview("C07", 10), ob_fileview_far("C07"), ob_blockwise("C07"), ob_watford("C07"),
+           ob_hfe_header("C07"), ob_copy_hfe("C07", 5), ob_zlib_error_code("C07")]
+    return obs, dict(assumptions=CXX_ASSUME + ["C07 is claimed per parsing kernel with the file modelled as an arbitrary buffer; whole-program runs, getopt and the "
+                                                "command bodies are outside the claim; 'terminates promptly' is replaced by passing unwinding assertions"])
+
+W_GZ = "w_gz.cc"
+def ob_decompressed_read(pid):
+    return X.cxx_ob(pid, "decompressed_read", W_GZ, "h_decompressed_read", "DecompressedFile::read(pos, len) returns min(len, size-pos) bytes, the bytes at that position "
+                    "(the contract of OsFile::read that the image readers rely on)", "file of <= 24 symbolic bytes, pos < 40, len < 20",
+                    ["dfs/img_gzfile.cc:DecompressedFile::read"], unwind=50, weight_gb=4,
+                    stubs=["fseek/fread over an in-memory file (stubs/vf_stubs.c vfz_*)"])
+def ob_zlib_error_code(pid):
+    return X.cxx_ob(pid, "zlib_error_code", W_GZ, "h_zlib_error_code", "check_zlib_error_code(c) returns iff c == Z_OK; every other status throws a std::exception",
+                    "32-bit symbolic status", ["dfs/img_gzfile.cc:check_zlib_error_code"], unwind=10, unwindset=[("X_strlen", 64)], noop_re=EXC_CTORS + [r"FixedDecompressionErrorC[12]"])
+@prop("C10")
+def c10(tier):
+    return [ob_decompressed_read("C10"), ob_zlib_error_code("C10")], dict(assumptions=CXX_ASSUME + ["zlib itself and the operating system are trusted; the inflate loop protocol is not encoded"])
+
+W_CMDS = "w_cmds.cc"
+W_EXTRACT = "w_extract.cc"
+CMD_UNWIND = [("X_strlen", 64), ("X_mem", 16), ("vf_ostream3num", 24), ("make_disc", 4), ("cout_num", 200), ("realloc_insert", 6), ("vf_rb", 6), ("Rb_tree", 6)]
+def ob_cmd_free(pid, entries=2):
+    return X.cxx_ob(pid, "cmd_free.E%d" % entries, W_CMDS, "h_cmd_free", "CommandFree::invoke on an in-memory Acorn DFS drive with a symbolic well-formed catalogue: "
+                    "prints free/used files, sectors (hex) and bytes with used = max(catalogue sectors, highest file end)",
+                    "<= %d catalogue entries with symbolic start/length (non-overlapping, descending), total sectors 3..800" % entries,
+                    ["dfs/cmd_free.cc:CommandFree::invoke", "dfs/storage.cc:StorageConfiguration::mount", "mount_fs", "connect_drives", "dfs/dfs_filesystem.cc:FileSystem::FileSystem",
+                     "dfs/dfs_volume.cc:init_volumes", "Volume::Volume", "dfs/dfs_catalog.cc:Catalog::Catalog", "Catalog::entries"],
+                    unwind=8, unwindset=CMD_UNWIND, defines=("NDEBUG", "CMD_ENTRIES=%d" % entries), weight_gb=10, timeout=1500, noop_re=EXC_CTORS)
+def ob_cmd_space(pid, entries=2):
+    return X.cxx_ob(pid, "cmd_space.E%d" % entries, W_CMDS, "h_cmd_space", "CommandSpace::invoke on the same drive: lists exactly the maximal runs of unallocated sectors in disc order "
+                    "and their sum = total - catalogue - file sectors", "<= %d entries as cmd_free" % entries,
+                    ["dfs/cmd_space.cc:CommandSpace::invoke", "select_volumes", "Catalog::get_catalog_in_disc_order"],
+                    unwind=8, unwindset=CMD_UNWIND, defines=("NDEBUG", "CMD_ENTRIES=%d" % entries), weight_gb=10, timeout=1500, noop_re=EXC_CTORS)
+@prop("C14")
+def c14(tier):
+    e = 2 if tier == "quick" else 3
+    return [ob_cmd_free("C14", e), ob_cmd_space("C14", e)], dict(assumptions=CXX_ASSUME)
+
+def ob_extract_paths(pid):
+    return X.cxx_ob(pid, "extract_paths", W_EXTRACT, "h_extract_paths", "CommandExtractFiles::invoke on an in-memory drive with one catalogued file whose 8 name/directory bytes are arbitrary: "
+                    "every host file opened lies directly inside the destination directory", "7 name bytes + directory byte symbolic, destination with/without trailing slash",
+                    ["dfs/cmd_extract_files.cc:CommandExtractFiles::invoke", "create_inf_file", "CatalogEntry::name", "stringutil::rtrim"],
+                    unwind=10, unwindset=CMD_UNWIND + [("h_extract_paths", 20)], weight_gb=10, timeout=1500, noop_re=EXC_CTORS,
+                    stubs=["std::ofstream modelled by harness/cxx/iomodel.h (records the path of every file opened)"])
+@prop("C12")
+def c12(tier):
+    return [ob_extract_paths("C12")], dict(assumptions=CXX_ASSUME)
+
+def ob_hexdump(pid):
+    return X.cxx_ob(pid, "hexdump", W_TRACK, "h_hexdump", "hexdump_bytes row format (offset, 8 hex cells, ** padding, printable column) for every body of <= 9 bytes; stream flags restored",
+                    "<= 9 symbolic bytes (0, <8, =8, 9)", ["dfs/hexdump.cc:hexdump_bytes", "cleanup.h:ostream_flag_saver"], unwind=12, weight_gb=4)
+@prop("C18")
+def c18(tier):
+    obs = [X.cxx_ob("C18", "verbose_watford", W_ID, "h_verbose_watford", "smells_like_watford run with --verbose off and on over the same medium: same verdict, same reads, "
+                    "nothing on standard output, additions only on standard error", "256+8 symbolic bytes",
+                    ["dfs/identify.cc:smells_like_watford", "eliminated_format"], unwind=34, unwindset=ID_UNWIND + [("h_verbose_watford", 258)]),
+           X.cxx_ob("C18", "verbose_copy_hfe", W_HFE, "h_verbose_copy_hfe", "copy_hfe (HFE v3) with --verbose off and on: same cells, same acceptance, all extra text on standard error",
+                    "<= 4 symbolic input bytes", ["dfs/img_hfe.cc:copy_hfe"], unwind=8, unwindset=[("X_strlen", 64), ("vf_ostream3num", 24)], weight_gb=6, noop_re=[r"_M_realloc_insert"]),
+           ob_hexdump("C18")]
+    return obs, dict(assumptions=CXX_ASSUME)
+
 W_STOR = "w_storage.cc"
 @prop("C16")
 def c16(tier):
@@ -238,7 +326,7 @@ def c04(tier):
 
 @prop("C01")
 def c01(tier):
-    obs = [ob_entry_fields("C01"), ob_sector_walk("C01", 1024 if tier == "quick" else 4096), ob_volume_access("C01")]
+    obs = [ob_entry_fields("C01"), ob_sector_walk("C01", 1024 if tier == "quick" else 4096), ob_volume_access("C01"), ob_hexdump("C01")]
     return obs, dict(assumptions=CXX_ASSUME)
 
 @prop("C17")
